@@ -30,6 +30,10 @@ CLAIMED = {
     "C04": ("S", "Same real MGM/MGM2 runs; for every complete cycle without a value change z3 decides that no single-variable change improves the "
                  "symbolic global cost (1-opt), on every path. MGM2 in max mode is a listed known finding (region predicate).",
             "Bounded as C03. Cycles beyond the third are covered only through the arbitrary initial assignment.", "4/C04", S),
+    "C05": ("S", "Real Max-Sum (synchronous) and A-Max-Sum computations on the real factor graph of tree-shaped DCOPs with symbolic tables, damping 0, noise 0; the unique optimum a* "
+                 "is assumed (every choice of a* explored) and z3/exploration decide on every path that the selected assignment is a* after the budget. A-Max-Sum is a listed known finding.",
+            "Bounded: pair and pair+unary factor (quick), chain-3/star-3 (thorough), domain 2; rational arithmetic model with real-valued tables (mixed int/real queries time out); "
+            "Max-Sum explored on the canonical schedule (round structure is schedule independent, C08), 8-10 rounds.", "4/C05", S),
     "C06": ("S", "find_arg_optimal / find_optimal / optimal_cost_value / projection and the A-DSA helper are executed on tables whose "
                  "entries are symbolic integers or infinities, and real DSA (A/B/C), A-DSA and DSA-tuto computations run on the bench; "
                  "z3 decides on every path that the returned set is exactly the arg-optimum set with its cost and that every DSA move is a best response.",
